@@ -42,6 +42,7 @@ class BezierCurve:
     def as_polyline(self, n_pts:int=100, custom_pos=None):
         if custom_pos is not None:
             points = custom_pos
+            n_pts = len(points) # one vertex per given parameter
         else:
             points = np.linspace(0,1,n_pts)
         out = RawMeshData()
